@@ -291,7 +291,9 @@ func All() []*Codec {
 	})
 
 	// ---------------- MPEG-4 audio (generic), parameter variants
-	for _, v := range [][3]int{{13, 3, 3}, {6, 2, 2}, {16, 0, 0}, {13, 0, 0}} {
+	// (SizeLength, IndexLength, IndexDeltaLength): the common ones, and combinations in which the first
+	// AU-header is longer / shorter than the following ones
+	for _, v := range [][3]int{{13, 3, 3}, {6, 2, 2}, {16, 0, 0}, {13, 0, 0}, {13, 3, 0}, {13, 3, 2}, {6, 2, 1}, {8, 1, 4}} {
 		sl, il, idl := v[0], v[1], v[2]
 		maxU := 5 * 1024
 		if (1<<sl)-1 < maxU {
